@@ -6,8 +6,9 @@ WHAT = 'explicit'
 
 TOK_G = ['expr', 'dangling', 'nullamb', 'rr_prio', 'amb_inl', 'amb_mid', 'amb_exp1', 'amb_alias', 'amb_null', 'amb_nested_inl', 'amb_nested_inl2', 'shape4', 'shape1', 'hidden_lrec',
          'nullchain', 'ebnf', 'unitcycle', 'cycle2', 'ss']
-TXT_G = [('collide', 'dynamic'), ('collide', 'dynamic_complete'), ('nulltxt', 'dynamic_complete'), ('nulltxt', 'dynamic'), ('opttail', 'dynamic_complete'), ('opttail', 'dynamic')]
-TXT_K = {'collide': 5, 'nulltxt': 6, 'opttail': 6}
+TXT_G = [('collide', 'dynamic'), ('collide', 'dynamic_complete'), ('nulltxt', 'dynamic_complete'), ('nulltxt', 'dynamic'), ('opttail', 'dynamic_complete'), ('opttail', 'dynamic'),
+         ('ignstart', 'dynamic'), ('ignstart', 'dynamic_complete')]
+TXT_K = {'collide': 5, 'nulltxt': 6, 'opttail': 6, 'ignstart': 4}
 
 
 def make_plan(what, tier, seed):
@@ -26,7 +27,7 @@ def make_plan(what, tier, seed):
                            'timeout': int((est if pin is None else est / K * 1.5) * 3 + 60), 'twin': pin in (None, 0), 'bound': {'tokens': Lg, 'kinds': K}})
     for g, lexer in TXT_G:
         K = TXT_K[g]
-        Lt = (3 if quick else 4) + (1 if g == 'opttail' else 0)
+        Lt = (3 if quick else 4) + (1 if g in ('opttail', 'ignstart') else 0)
         est = sum(K ** n for n in range(Lt + 1)) * 0.5
         pins = [None] if est <= budget else list(range(K))
         for pin in pins:
